@@ -249,8 +249,9 @@ def _scalar_expr(e: ast.AST, fn: ast.AST, depth: int = 3) -> bool:
     return False
 
 
-def _scalar_collection(e: ast.AST, fn: ast.AST) -> bool:
+def _scalar_collection(e: ast.AST, fn: ast.AST, _seen: Optional[Set[str]] = None) -> bool:
     """a collection whose elements are visibly numbers / strings / paths"""
+    _seen = set() if _seen is None else _seen
     if isinstance(e, (ast.List, ast.Tuple, ast.Set)):
         return all(_scalar_expr(x, fn) for x in e.elts)
     if isinstance(e, ast.Call):
@@ -258,15 +259,18 @@ def _scalar_collection(e: ast.AST, fn: ast.AST) -> bool:
         if last in _SCALAR_COLLECTION_CALLS:
             return True
         if last in ("list", "set", "tuple", "sorted") and len(e.args) == 1:
-            return _scalar_collection(e.args[0], fn)
+            return _scalar_collection(e.args[0], fn, _seen)
         return False
     if isinstance(e, (ast.ListComp, ast.SetComp, ast.GeneratorExp)):
         return _scalar_expr(e.elt, fn)
     if isinstance(e, ast.Name):
+        if e.id in _seen:
+            return True           # x = sorted(x): decided by the other sources of x
+        _seen.add(e.id)
         vals = [v for _t, v in astq.assignments(fn, e.id) if v is not None]
         adds = [c.args[0] for c in ast.walk(fn) if isinstance(c, ast.Call) and isinstance(c.func, ast.Attribute) and
                 c.func.attr in ("append", "add") and isinstance(c.func.value, ast.Name) and c.func.value.id == e.id and c.args]
-        return bool(vals) and all(_scalar_collection(v, fn) for v in vals) and all(_scalar_expr(a, fn) for a in adds)
+        return bool(vals) and all(_scalar_collection(v, fn, _seen) for v in vals) and all(_scalar_expr(a, fn) for a in adds)
     return False
 
 
